@@ -259,7 +259,7 @@ func init() {
 				},
 			},
 			{
-				Name: "polygons-and-collections", Count: h.Fixed(5000, 250000),
+				Name: "polygons-and-collections", Count: h.Fixed(5000, 500000),
 				Run: func(c *h.Ctx, idx uint64, r *h.Rand) {
 					sz := []float64{40, 400, 20000}[r.Intn(3)]
 					bx, by := float64(r.Range(-1000, 1000)), float64(r.Range(-1000, 1000))
@@ -376,7 +376,7 @@ func init() {
 				},
 			},
 			{
-				Name: "lower-dimensions", Count: h.Fixed(5000, 250000),
+				Name: "lower-dimensions", Count: h.Fixed(5000, 500000),
 				Run: func(c *h.Ctx, idx uint64, r *h.Rand) {
 					// multi point: count weighted; line strings: length weighted
 					n := r.Range(1, 8)
@@ -495,7 +495,7 @@ func init() {
 				},
 			},
 			{
-				Name: "float-rings", Count: h.Fixed(5000, 250000),
+				Name: "float-rings", Count: h.Fixed(5000, 500000),
 				Run: func(c *h.Ctx, idx uint64, r *h.Rand) {
 					sc := math.Pow(10, float64(r.Range(-3, 5)))
 					ox, oy := r.Uniform(-10, 10)*sc, r.Uniform(-10, 10)*sc
